@@ -131,6 +131,15 @@ def run(bdir, tier, known_ids, deadline, only_utf8=False):
                 many = bytes(buf) + b'@test.com'
                 for body in (one_, many):
                     files.append(body + b'\n' + b'ok@test.com\n')
+    # lines whose ESCAPED echo lands exactly on / next to a power of two: 1-3 control characters (each echoed as 4 bytes) in lines of every length
+    # within 12 of 128..4096 (an echo buffer that grows by doubling has its corner exactly there)
+    for centre in (128, 256, 512, 1024, 2048, 4096):
+        for n in range(centre - 12, centre + 3):
+            for nctl in (1, 2, 3):
+                for ctl in (b'\r', b'\x01'):
+                    body = bytearray(b'a' * (n - 9) + b'@test.com')
+                    for k in range(nctl): body[5 + 7 * k:5 + 7 * k + 1] = ctl
+                    files.append(bytes(body) + b'\n' + b'ok@test.com\n')
     # UTF-8 strictness through the tool (bin/utf8_decode.c interposes the library's decoder when linked shared): every 2-byte
     # sequence with a non-ASCII lead, boundary 3- and 4-byte sequences, as bare and quoted local parts - thousands of lines per file
     def utf8_file(seqs, fmt):
